@@ -319,3 +319,15 @@ VARIANTS += [
  dict(name='helper-marshals-payload-without-target', expect='flagged(envelope/request-payload)',
       edits=[(P, MARSHAL_FIND, MARSHAL_CALL), (P, MERGE_FN, _sub(MARSHAL_HELPER, 'envelope.Payload{TargetArtifact: envelope.SanitizeTargetArtifact(target)}', 'envelope.Payload{TargetArtifact: ocispec.Descriptor{MediaType: target.MediaType}}') + MERGE_FN)]),
 ]
+
+SETTER = 'func (s *PluginSigner) keepAnnotations(fromPlugin map[string]string) {\n\ts.manifestAnnotations = fromPlugin\n}\n\n'
+VARIANTS += [
+ # ---- shape: plugin output is stored in the signer by a setter method
+ dict(name='benign-annotations-stored-by-setter', expect='silent',
+      edits=[(P, '\ts.manifestAnnotations = resp.Annotations\n', '\ts.keepAnnotations(resp.Annotations)\n'), (P, MERGE_FN, SETTER + MERGE_FN)],
+      why='the setter is called only after all checks'),
+ dict(name='setter-annotations-stored-before-checks', expect='flagged(envelope/state-after-checks)',
+      edits=[(P, '\ts.manifestAnnotations = resp.Annotations\n', ''),
+             (P, '\t// Check signatureEnvelopeType is honored.\n', '\ts.keepAnnotations(resp.Annotations)\n\t// Check signatureEnvelopeType is honored.\n'),
+             (P, MERGE_FN, SETTER + MERGE_FN)]),
+]
